@@ -16,12 +16,17 @@ FAMILY = "walk"
 HARNESS = {"source": "x_walk.c", "leak_clean": True}
 RULE = ("small CIFs (<= 3 blocks x <= 2 frames (+ nested) x <= 3 loops x <= 3 packets x <= 3 items, packet-less loops "
         "included) x every handler program deviating from CONTINUE at <= 1 invocation (quick) / <= 2 invocations "
-        "(thorough) with responses {-1,-2,-3,7,1}, plus random programs with 3..6 deviations; non-trivial = the "
+        "(thorough) with responses {-1,-2,-3,7,1} and a spread of other return values (1, 2, 33, 36, 43, 104, 134, 100000, -4, -5) at "
+        "every position, plus random programs with 3..6 deviations; non-trivial = the "
         "program deviates at an invocation that is actually reached; oracle (implementation only): C14 restated over "
         "the log, any sibling order accepted")
 
 CONT, SKIP_CUR, SKIP_SIB, END = 0, -1, -2, -3
 RESPS = [-1, -2, -3, 7, 1]
+# a spread of non-navigation return values: result codes that collide with values the walker uses internally (1 =
+# CIF_FINISHED, 36 = CIF_EMPTY_LOOP, 33 = CIF_NOSUCH_LOOP, 43/104/134 ordinary codes), a large positive value, and
+# the values adjacent to the CIF_TRAVERSE_* constants (-4, -5 below END; 1, 2 above CONTINUE)
+CODES = [1, 2, 33, 36, 43, 104, 134, 100000, -4, -5]
 CIF_FINISHED = 1
 
 
@@ -195,10 +200,12 @@ class Checker:
     def take(self):
         r = self.prog.get(self.k, CONT)
         self.k += 1
-        if r > 0:
-            raise Stop(r)
         if r == END:
             raise Stop(0)
+        if r not in (CONT, SKIP_CUR, SKIP_SIB):
+            # any other return value - a result code, positive or not - ends the walk at once and is cif_walk's return
+            # value, unchanged; no further handler is called
+            raise Stop(r)
         return r
 
     def group(self, nodes):
@@ -410,12 +417,16 @@ def generate(seed, tier):
     cifs = [CORE]
     for i in range(5 if quick else 40):
         cifs.append(gen_cif(r, big if i % 2 == 0 else mid, allow_empty=(i % 2 == 1)))
-    for toks in cifs:
+    for ci, toks in enumerate(cifs):
         n = ncallbacks(toks)
         base = "walk " + " ".join(toks) + " prog"
         yield base
         for k in range(n):
             for resp in RESPS:
+                yield base + " %d:%d" % (k, resp)
+            # the spread of other return values: all of them at every position of the first CIF (every handler kind),
+            # two per position (rotating) on the others
+            for resp in (CODES if ci == 0 else [CODES[(k + ci) % len(CODES)], CODES[(k + ci + 5) % len(CODES)]]):
                 yield base + " %d:%d" % (k, resp)
     # 2. exhaustive double deviations (all pairs of invocations x all pairs of responses) on smaller CIFs
     pairs_cifs = [gen_cif(r, small, allow_empty=(i % 4 == 3)) for i in range(1 if quick else 10)]
@@ -437,5 +448,5 @@ def generate(seed, tier):
         n = ncallbacks(toks)
         prog = {}
         for _ in range(r.randint(3, 6)):
-            prog[r.randrange(n)] = r.choice([-1, -1, -2, -2, -3, 7, 1, 2])
+            prog[r.randrange(n)] = r.choice([-1, -1, -2, -2, -3, 7] + CODES)
         yield "walk " + " ".join(toks) + " prog" + "".join(" %d:%d" % e for e in sorted(prog.items()))
